@@ -1,13 +1,452 @@
 package main
 
+// Controller level: a script of API writes / deletes and queue deliveries (in any order, failed deliveries stay
+// pending and are delivered again later) for up to three clusters with overlapping server names, run through the
+// REAL UpstreamClusterController.syncUpstreamCluster (overlay shim) around a real cache.Indexer/lister and a real
+// clusters.Manager. After every op
+//   - diff:    handler result, pending items, host resolution and every served cluster's observation vs the Lean model
+//              (KG.Model.ClusterSync.Ctl.step),
+//   - judge 1: every cluster with nothing pending is exactly what the lister's current object prescribes
+//              (KG.Spec.ClusterSync.expected), or is not served when the object is gone,
+//   - judge 2: (direct) a freshly started controller given only the latest objects serves that cluster identically,
+//   - judge 3: the hosts resolving to a settled cluster are exactly its latest object's server names.
+
 import (
+	"fmt"
 	"math/rand"
+	"sort"
+	"strings"
+
+	"k8s.io/client-go/tools/cache"
+
+	proxyv1alpha1 "github.com/kubewharf/kubegateway/pkg/apis/proxy/v1alpha1"
+	"github.com/kubewharf/kubegateway/pkg/clusters"
+	"github.com/kubewharf/kubegateway/pkg/gateway/controllers"
 
 	"verifharness/rig"
 )
 
+var (
+	ctlClusters = []string{"c.example", "b.example", "other"}
+	ctlHosts    = []string{"c.example", "b.example", "other", "alias.example", "x.y", "C.Example", "unknown.example"}
+)
+
 func renumber(l []COp) []COp { return l }
 
-func runCtl(c *rig.Ctx, cs Case) verdict { return pass }
+type ctlObs struct {
+	Result  string
+	Pending []string
+	Resolve []string          // "host -> cluster"
+	Served  map[string]*Obs   // cluster name -> observation (nil = not served under its own name)
+	Ord     []string          // oracle for the model (deliver ops)
+}
 
-func genCtl(r *rand.Rand, raw bool) (Case, []string) { return Case{Mode: "ctl"}, nil }
+type realCtl struct {
+	ctl     *controllers.UpstreamClusterController
+	indexer cache.Indexer
+	pending []*proxyv1alpha1.UpstreamCluster
+	seen    map[*clusters.ClusterInfo]bool
+	rv      int
+}
+
+func newRealCtl(global string) *realCtl {
+	indexer := cache.NewIndexer(cache.MetaNamespaceKeyFunc, cache.Indexers{})
+	return &realCtl{ctl: controllers.VerifC11NewController(indexer, global), indexer: indexer, seen: map[*clusters.ClusterInfo]bool{}}
+}
+
+func (r *realCtl) track() {
+	for _, h := range ctlHosts {
+		if ci, ok := r.ctl.Get(h); ok {
+			r.seen[ci] = true
+		}
+	}
+}
+
+func (r *realCtl) stop() {
+	r.track()
+	for ci := range r.seen {
+		stopCluster(ci)
+	}
+}
+
+func (r *realCtl) write(o WObj) {
+	r.rv++
+	obj := o.Real(fmt.Sprint(r.rv))
+	if _, exists, _ := r.indexer.GetByKey(o.Name); exists {
+		r.indexer.Update(obj) //nolint
+	} else {
+		r.indexer.Add(obj) //nolint
+	}
+	r.pending = append(r.pending, obj)
+}
+
+func (r *realCtl) delete(name string) {
+	if old, exists, _ := r.indexer.GetByKey(name); exists {
+		r.indexer.Delete(old) //nolint
+		r.pending = append(r.pending, old.(*proxyv1alpha1.UpstreamCluster))
+		return
+	}
+	r.pending = append(r.pending, (&WObj{Name: name}).Real("0"))
+}
+
+// deliver hands pending item i to the real sync handler.
+func (r *realCtl) deliver(i int) string {
+	if i < 0 || i >= len(r.pending) {
+		return "skip"
+	}
+	r.track()
+	var requeue bool
+	var err error
+	_, panicked := rig.Recover(func() { requeue, err = r.ctl.VerifC11Sync(r.pending[i]) })
+	switch {
+	case panicked:
+		return "crash"
+	case err != nil:
+		return "error:" + err.Error()
+	case requeue:
+		return "requeue"
+	}
+	r.pending = append(append([]*proxyv1alpha1.UpstreamCluster{}, r.pending[:i]...), r.pending[i+1:]...)
+	return "done"
+}
+
+func (r *realCtl) observe(u Universe) ctlObs {
+	o := ctlObs{Pending: []string{}, Resolve: []string{}, Served: map[string]*Obs{}}
+	for _, p := range r.pending {
+		o.Pending = append(o.Pending, p.Name)
+	}
+	for _, h := range ctlHosts {
+		if ci, ok := r.ctl.Get(h); ok {
+			o.Resolve = append(o.Resolve, h+" -> "+ci.Cluster)
+		} else {
+			o.Resolve = append(o.Resolve, h+" -> -")
+		}
+	}
+	for _, n := range ctlClusters {
+		if ci, ok := r.ctl.Get(n); ok && ci.Cluster == strings.ToLower(n) {
+			ob := observeReal(ci, u)
+			o.Served[n] = &ob
+		}
+	}
+	r.track()
+	return o
+}
+
+type mCtlStep struct {
+	Result string `json:"result"`
+	State  *struct {
+		Pending  []string    `json:"pending"`
+		Resolve  [][]*string `json:"resolve"`
+		Clusters []struct {
+			Name     string `json:"name"`
+			Pending  bool   `json:"pending"`
+			Served   *mObs  `json:"served"`
+			Expected *mObs  `json:"expected"`
+		} `json:"clusters"`
+	} `json:"state"`
+}
+
+func contains(l []string, s string) bool {
+	for _, x := range l {
+		if x == s {
+			return true
+		}
+	}
+	return false
+}
+
+func runCtl(c *rig.Ctx, cs Case) verdict {
+	var objs []WObj
+	for _, op := range cs.Ops {
+		if op.Op == "write" && op.Obj != nil {
+			objs = append(objs, *op.Obj)
+		}
+	}
+	u := universeOf(objs, cs.Probes)
+	real := newRealCtl(cs.Global)
+	defer real.stop()
+	latest := map[string]WObj{}
+	var steps []ctlObs
+	var lateJudge *verdict
+	for k, op := range cs.Ops {
+		res := "ok"
+		var ord []string
+		switch op.Op {
+		case "write":
+			real.write(*op.Obj)
+			latest[op.Obj.Name] = *op.Obj
+		case "delete":
+			real.delete(op.Name)
+			delete(latest, op.Name)
+		case "deliver":
+			name := ""
+			if op.Item >= 0 && op.Item < len(real.pending) {
+				name = real.pending[op.Item].Name
+			}
+			res = real.deliver(op.Item)
+			if strings.HasPrefix(res, "error:") {
+				return verdict{kind: "diff", class: "c11.ctl.handler-error", what: fmt.Sprintf("op %d: the sync handler returned an error: %s", k+1, res)}
+			}
+			if lo, ok := latest[name]; ok && res == "requeue" {
+				// iteration-order oracle for a Sync that failed while adding endpoints
+				tmp := real.observe(u)
+				if s := tmp.Served[name]; s != nil {
+					ord = rangeOracle(lo, *s)
+				}
+			}
+		}
+		if res == "crash" {
+			steps = append(steps, ctlObs{Result: res})
+			break
+		}
+		st := real.observe(u)
+		st.Result, st.Ord = res, ord
+		steps = append(steps, st)
+
+		// judges 2 and 3 on the real controller alone, for every settled cluster
+		if lateJudge == nil {
+			for _, n := range ctlClusters {
+				if contains(st.Pending, n) {
+					continue
+				}
+				lo, exists := latest[n]
+				served := st.Served[n]
+				if !exists {
+					continue // judge 1 covers "deleted => not served"
+				}
+				if served == nil {
+					continue // judge 1 reports it
+				}
+				// judge 3: names
+				want := map[string]bool{strings.ToLower(n): true}
+				for _, s := range lo.SS.Names {
+					want[strings.ToLower(s)] = true
+				}
+				var got, exp []string
+				for _, h := range ctlHosts {
+					lh := strings.ToLower(h)
+					if ci, ok := real.ctl.Get(h); ok && ci.Cluster == strings.ToLower(n) {
+						got = append(got, lh)
+					}
+					if want[lh] {
+						exp = append(exp, lh)
+					}
+				}
+				if strings.Join(got, ",") != strings.Join(exp, ",") {
+					v := verdict{kind: "judge", class: "c11.ctl.names", impl: map[string]interface{}{"resolving": got, "latest-object-names": exp},
+						what: fmt.Sprintf("after op %d nothing is pending for cluster %s, but the hosts resolving to it are %v while its latest object names %v", k+1, n, got, exp)}
+					lateJudge = &v
+					break
+				}
+				// judge 2: fresh controller given only the latest objects, this cluster delivered first
+				if op.Op == "deliver" {
+					fresh := newRealCtl(cs.Global)
+					var item *proxyv1alpha1.UpstreamCluster
+					for _, m := range ctlClusters {
+						if o, ok := latest[m]; ok {
+							obj := o.Real("1")
+							fresh.indexer.Add(obj) //nolint
+							if m == n {
+								item = obj
+							}
+						}
+					}
+					fresh.pending = []*proxyv1alpha1.UpstreamCluster{item}
+					fres := fresh.deliver(0)
+					fo := fresh.observe(u)
+					fresh.stop()
+					if fres != "done" || fo.Served[n] == nil {
+						v := verdict{kind: "judge", class: "c11.ctl.fresh-fails", impl: fres,
+							what: fmt.Sprintf("after op %d cluster %s is settled and served, but a fresh controller given the latest objects answers %s for it", k+1, n, fres)}
+						lateJudge = &v
+						break
+					}
+					if d := obsDiff(*served, *fo.Served[n], true); len(d) > 0 {
+						v := verdict{kind: "judge", class: "c11.ctl.fresh-differs." + d[0], impl: map[string]interface{}{"long-lived": served, "fresh": fo.Served[n]},
+							what: fmt.Sprintf("after op %d cluster %s (nothing pending) differs from the same cluster in a fresh controller given only the latest objects in: %s", k+1, n, strings.Join(d, ", "))}
+						lateJudge = &v
+						break
+					}
+				}
+			}
+		}
+	}
+
+	// the model
+	ops := []map[string]interface{}{}
+	for k, op := range cs.Ops {
+		switch op.Op {
+		case "write":
+			ops = append(ops, map[string]interface{}{"op": "write", "obj": op.Obj.Model()})
+		case "delete":
+			ops = append(ops, map[string]interface{}{"op": "delete", "name": rig.Hex(op.Name)})
+		default:
+			d := map[string]interface{}{"op": "deliver", "item": op.Item}
+			if k < len(steps) && steps[k].Ord != nil {
+				d["ord"] = rig.HexList(steps[k].Ord)
+			}
+			if op.Item < 0 {
+				d["item"] = 1 << 30
+			}
+			ops = append(ops, d)
+		}
+	}
+	probes := []map[string]interface{}{}
+	for _, a := range cs.Probes {
+		probes = append(probes, a.JSON())
+	}
+	req := map[string]interface{}{"env": modelEnv(), "conn": map[string]interface{}{"global": rig.Hex(cs.Global), "skip": false},
+		"ops": ops, "eps": rig.HexList(u.Eps), "names": rig.HexList(u.Names), "probes": probes,
+		"hosts": rig.HexList(ctlHosts), "cnames": rig.HexList(ctlClusters)}
+	var ms []mCtlStep
+	if err := c.Model("C11.ctl", req, &ms); err != nil {
+		return verdict{kind: "diff", class: "c11.model-error", what: "model error: " + err.Error()}
+	}
+	for k, st := range steps {
+		m := ms[k]
+		if m.Result != st.Result {
+			return verdict{kind: "diff", class: "c11.diff.ctl-result", impl: st.Result, model: m.Result,
+				what: fmt.Sprintf("op %d (%s): the handler answers %s, the model %s", k+1, cs.Ops[k].Op, st.Result, m.Result)}
+		}
+		if st.Result == "crash" {
+			break
+		}
+		var mp []string
+		for _, p := range m.State.Pending {
+			mp = append(mp, rig.UnHex(p))
+		}
+		if strings.Join(mp, ",") != strings.Join(st.Pending, ",") {
+			return verdict{kind: "diff", class: "c11.diff.ctl-pending", impl: st.Pending, model: mp, what: fmt.Sprintf("op %d: pending items differ", k+1)}
+		}
+		var mr []string
+		for _, r := range m.State.Resolve {
+			t := "-"
+			if r[1] != nil {
+				t = rig.UnHex(*r[1])
+			}
+			mr = append(mr, rig.UnHex(*r[0])+" -> "+t)
+		}
+		if strings.Join(mr, ";") != strings.Join(st.Resolve, ";") {
+			return verdict{kind: "diff", class: "c11.diff.ctl-resolve", impl: st.Resolve, model: mr, what: fmt.Sprintf("op %d: host resolution differs", k+1)}
+		}
+		for _, mc := range m.State.Clusters {
+			n := rig.UnHex(mc.Name)
+			served := st.Served[n]
+			if (served == nil) != (mc.Served == nil) {
+				return verdict{kind: "diff", class: "c11.diff.ctl-served", impl: served != nil, model: mc.Served != nil,
+					what: fmt.Sprintf("op %d: cluster %s served: code %v, model %v", k+1, n, served != nil, mc.Served != nil)}
+			}
+			if served != nil {
+				if d := obsDiff(*served, mc.Served.Obs(), true); len(d) > 0 {
+					return verdict{kind: "diff", class: "c11.diff.ctl-obs." + d[0], impl: served, model: mc.Served.Obs(),
+						what: fmt.Sprintf("op %d: cluster %s: real ClusterInfo and model differ in: %s", k+1, n, strings.Join(d, ", "))}
+				}
+			}
+			// judge 1: the Lean judge on the implementation's state
+			if !contains(st.Pending, n) {
+				switch {
+				case mc.Expected == nil && served != nil:
+					return verdict{kind: "judge", class: "c11.ctl.deleted-still-served", impl: served,
+						what: fmt.Sprintf("after op %d nothing is pending for cluster %s and its object is gone, but it is still served", k+1, n)}
+				case mc.Expected != nil && served == nil:
+					return verdict{kind: "judge", class: "c11.ctl.settled-not-served",
+						what: fmt.Sprintf("after op %d nothing is pending for cluster %s and its object exists, but it is not served", k+1, n)}
+				case mc.Expected != nil:
+					if d := obsDiff(*served, mc.Expected.Obs(), false); len(d) > 0 {
+						return verdict{kind: "judge", class: "c11.ctl.settled-differs." + d[0], impl: served, model: mc.Expected.Obs(),
+							what: fmt.Sprintf("after op %d nothing is pending for cluster %s, but its state is not what the lister's current object prescribes in: %s", k+1, n, strings.Join(d, ", "))}
+					}
+				}
+			}
+		}
+	}
+	if lateJudge != nil {
+		return *lateJudge
+	}
+	return pass
+}
+
+// genCtl: a script for the controller.
+func genCtl(r *rand.Rand, raw bool) (Case, []string) {
+	cs := Case{Mode: "ctl", Global: rig.Pick(r, []string{"", "remote"}), Probes: genProbes(r)[:5]}
+	labels := []string{}
+	cur := map[string]*WObj{}
+	var history []WObj
+	nPending := 0
+	n := 8 + r.Intn(24)
+	small := func(o *WObj) {
+		if len(o.Schemas) > 2 {
+			o.Schemas = o.Schemas[:2]
+		}
+		if len(o.Policies) > 2 {
+			o.Policies = o.Policies[:2]
+		}
+		// aliases from the host universe, so that clusters collide
+		o.SS.Names = nil
+		for _, h := range []string{"alias.example", "x.y", "b.example", "C.Example", "other"} {
+			if r.Intn(6) == 0 && strings.ToLower(h) != o.Name {
+				o.SS.Names = append(o.SS.Names, h)
+			}
+		}
+	}
+	for i := 0; i < n; i++ {
+		x := r.Intn(100)
+		switch {
+		case x < 38 || nPending == 0 && x < 70:
+			name := ctlClusters[r.Intn(2+r.Intn(2))]
+			var o WObj
+			if p := cur[name]; p != nil && r.Intn(4) != 0 {
+				o = p.clone()
+				for k, m := 0, 1+r.Intn(2); k < m; k++ {
+					if r.Intn(3) == 0 {
+						labels = append(labels, mutateFine(r, &o, raw))
+					} else {
+						labels = append(labels, mutate(r, &o, r.Intn(nFields), history, raw))
+					}
+				}
+				o.Name = name
+				if r.Intn(3) == 0 {
+					small(&o)
+					labels = append(labels, "ctl-aliases-changed")
+				}
+			} else {
+				o = genObj(r, name, raw)
+				small(&o)
+				labels = append(labels, "ctl-created")
+			}
+			if len(o.Schemas) > 2 {
+				o.Schemas = o.Schemas[:2]
+			}
+			v := o.clone()
+			if r.Intn(9) == 0 {
+				labels = append(labels, "ctl-"+spoil(r, &v))
+			}
+			cur[name] = &o
+			history = append(history, v)
+			cs.Ops = append(cs.Ops, COp{Op: "write", Obj: &v})
+			nPending++
+		case x < 46:
+			name := ctlClusters[r.Intn(3)]
+			delete(cur, name)
+			cs.Ops = append(cs.Ops, COp{Op: "delete", Name: name})
+			labels = append(labels, "ctl-deleted")
+			nPending++
+		default:
+			item := 0
+			if r.Intn(3) == 0 {
+				item = r.Intn(4)
+				labels = append(labels, "ctl-out-of-order-delivery")
+			}
+			cs.Ops = append(cs.Ops, COp{Op: "deliver", Item: item})
+			if nPending > 0 {
+				nPending--
+			}
+		}
+	}
+	// drain what is pending (permanently failing items stay where they are, so rotate over the first positions)
+	for i := 0; i < 10; i++ {
+		cs.Ops = append(cs.Ops, COp{Op: "deliver", Item: i % 4 / 2 * (i % 3)})
+	}
+	sort.Strings(labels)
+	return cs, labels
+}
